@@ -46,6 +46,31 @@ class C08(Prop):
         text = unhex(r["text"])
         if "\n\n\n" in text or text.startswith("\n"):
             return "paragraphs not separated by exactly one blank line"
+        # the edit history against a plain list of pairs
+        p = list(d[0]) if d else []
+        ops = [o for o in fields[1].split(" ") if o and o != "-"]
+        outs = r.get("ops", "").split("/") if ops else []
+        if len(outs) != len(ops):
+            return "edit history: wrong number of step records"
+        for op, got in zip(ops, outs):
+            parts = op.split(":")
+            k = unhex(parts[1])
+            if parts[0] == "g":
+                want = next((v for n, v in p if n == k), None)
+                exp = "g-" if want is None else "g+" + hexs(want)
+            else:
+                v = unhex(parts[2]) if len(parts) > 2 else None
+                if parts[0] == "s":
+                    idx = next((i for i, (n, _) in enumerate(p) if n == k), None)
+                    if idx is None: p.append((k, v))
+                    else: p[idx] = (k, v)
+                elif parts[0] == "i":
+                    p.append((k, v))
+                else:
+                    p = [(n, x) for n, x in p if n != k]
+                exp = parts[0] + ",".join(hexs(n) + "=" + hexs(x) for n, x in p)
+            if got != exp:
+                return f"edit history: {parts[0]} does not act like the list operation"
         return None
 
     def nontrivial(self, stream, fields, impl):
